@@ -372,12 +372,22 @@ impl IndexManager {
             entry_block.block_size, entry_block.block_hash
         );
 
-        // Read entry data (limited to block_size for safety)
+        // Read entry data (limited to block_size for safety). block_size comes
+        // from the file and is not trusted: read up to that many bytes instead
+        // of allocating them up front, and fail if the file is shorter.
         let entry_data_size = entry_block.block_size as usize;
-        let mut entry_data = vec![0u8; entry_data_size];
+        let mut entry_data = Vec::new();
         reader
-            .read_exact(&mut entry_data)
+            .by_ref()
+            .take(u64::from(entry_block.block_size))
+            .read_to_end(&mut entry_data)
             .map_err(|e| StorageError::Index(format!("Failed to read entry data: {e}")))?;
+        if entry_data.len() != entry_data_size {
+            return Err(StorageError::Index(format!(
+                "Failed to read entry data: block size {entry_data_size} exceeds the {} bytes left in the file",
+                entry_data.len()
+            )));
+        }
 
         Ok(entry_data)
     }
@@ -1828,6 +1838,18 @@ mod tests {
             .expect("an index file should have been written");
         let data = std::fs::read(&path).expect("read index file");
         (path, data)
+    }
+
+    #[test]
+    fn test_load_index_entry_block_size_beyond_file() {
+        let temp_dir = tempfile::tempdir().expect("Failed to create temp dir");
+        let (path, mut data) = write_test_index(temp_dir.path());
+
+        // Entry block header (offset 32) claims 4 GiB: error, not a huge allocation
+        data[32..36].copy_from_slice(&u32::MAX.to_le_bytes());
+        std::fs::write(&path, &data).expect("write index file");
+        let mut manager = IndexManager::new(temp_dir.path());
+        assert!(manager.load_index(0, &path).is_err());
     }
 
     #[test]
